@@ -513,7 +513,7 @@ fn worker(ctx: &WorkerCtx) -> Result<(), Fail> {
         3 => prop::collection::vec(prop::sample::select(ALPHA_FULL.to_vec()), 0..9),
         1 => "\\PC{0,6}".prop_map(|s| s.into_bytes()),
     ];
-    run_proptest(ctx, 19, ctx.share(ctx.tier.pick(300_000, 10_000_000)), strat, |s| json!({"c19": "any", "bytes": s}), |s, st| {
+    run_proptest(ctx, 19, ctx.share(ctx.tier.pick(1_000_000, 10_000_000)), strat, |s| json!({"c19": "any", "bytes": s}), |s, st| {
         move_bytes(s)?;
         let none1 = |ok: bool, w: &str| if ok { Ok(()) } else { Err(format!("C19 {w} accepts {:?}", String::from_utf8_lossy(s))) };
         match s.len() {
